@@ -766,15 +766,16 @@ class SyncState:  # pylint: disable=too-many-instance-attributes, too-many-publi
             self._paths[side][ent[side].path].pop(oid)
 
     def forget(self):
-        self._oids = ({}, {})
-        self._paths = ({}, {})
-        self._changeset = set()
-        self._dirtyset = set()
-        self.data_id = {}
-        if self._storage:
-            storage_dict = self._storage.read_all(cast(str, self._tag))
-            for eid, _ in storage_dict.items():
-                self._storage.delete(self._tag, eid)
+        with self.lock:
+            self._oids = ({}, {})
+            self._paths = ({}, {})
+            self._changeset = set()
+            self._dirtyset = set()
+            self.data_id = {}
+            if self._storage:
+                storage_dict = self._storage.read_all(cast(str, self._tag))
+                for eid, _ in storage_dict.items():
+                    self._storage.delete(self._tag, eid)
 
     def updated(self, ent, side, key, val):     # pylint: disable=too-many-branches
         if self._loading:
